@@ -109,68 +109,82 @@ func typesPass(cfg Config, types []uint16, mons map[string]bool) *Stats {
 func buildJobs(prop, tier string) []interface{} {
 	thorough := tier == "thorough"
 	var jobs []interface{}
-	maxIn := []int{0, 1, 2}
+	maxIn := []int{0, 1, 2, 3}
 	bases := []uint32{5, 0, 1<<32 - 3}
-	offs := []uint32{0, 1, 3}
+	offs := []uint32{0, 1, 2, 4}
 	kinds := []string{"mid", "midRaw", "fin", "eoe", "nil"}
-	maxRecs := 2
-	maxStates := int64(400_000)
+	maxStates := int64(1_000_000)
 	if thorough {
-		maxIn = []int{0, 1, 2, 3}
+		maxIn = []int{0, 1, 2, 3, 4}
 		bases = []uint32{5, 0, 1<<32 - 3, 1<<24 - 2, 1<<31 - 2}
 		offs = []uint32{0, 1, 2, 4, 7}
 		kinds = []string{"mid", "midRaw", "fin", "user", "eoe", "nil"}
-		maxRecs = 2
-		maxStates = 6_000_000
+		maxStates = 20_000_000
 	}
 	timeouts := []int64{farTimeout}
-	var ticks []int
 	switch prop {
 	case "C10":
 		timeouts = []int64{farTimeout, 2}
 	case "C19":
 		timeouts = []int64{-1, 0, 2, farTimeout}
+	default:
+		if thorough {
+			timeouts = []int64{farTimeout, 2}
+		}
 	}
 	for _, to := range timeouts {
 		for _, m := range maxIn {
 			for _, b := range bases {
-				tk := ticks
+				var tk []int
 				o := offs
 				k := kinds
 				if to != farTimeout {
+					// time multiplies the state space: smaller sequence / kind alphabets, first and last base
 					tk = []int{1, 3}
-					// time multiplies the state space: use the smaller sequence alphabet
+					o = []uint32{0, 1, 3}
+					k = []string{"mid", "fin", "eoe"}
 					if thorough {
 						o = []uint32{0, 1, 2, 4}
 					}
-					if prop == "C19" || prop == "C10" {
-						k = []string{"mid", "fin", "eoe"}
-						if b != bases[0] && b != bases[len(bases)-1] {
-							continue
-						}
+					if b != bases[0] && b != bases[len(bases)-1] {
+						continue
+					}
+					if m > 3 {
+						continue
 					}
 				}
-				cfg := Config{MaxInFlight: m, TimeoutTicks: to, Base: b, Offsets: o, Kinds: k, Ticks: tk, MaxRecs: maxRecs, PostClose: 2}
+				cfg := Config{MaxInFlight: m, TimeoutTicks: to, Base: b, Offsets: o, Kinds: k, Ticks: tk, MaxRecs: 2, PostClose: 2}
 				jobs = append(jobs, Job{Mode: "bfs", Cfg: cfg, MaxStates: maxStates})
 			}
 		}
 	}
+	// three records per event, more record kinds, small sequence alphabet
+	for _, m := range []int{0, 1, 2} {
+		if !thorough && m == 0 {
+			continue
+		}
+		k := []string{"mid", "path", "fin", "eoe"}
+		if thorough {
+			k = []string{"mid", "path", "fin", "finRaw", "anom", "eoe", "nil"}
+		}
+		cfg := Config{MaxInFlight: m, TimeoutTicks: farTimeout, Base: 1<<32 - 3, Offsets: []uint32{0, 1, 3}, Kinds: k, MaxRecs: 3, PostClose: 2}
+		jobs = append(jobs, Job{Mode: "bfs", Cfg: cfg, MaxStates: maxStates})
+	}
 	// all-sequences cross-check (no state merging)
-	depth := 5
+	depth := 6
 	if thorough {
-		depth = 6
+		depth = 7
 	}
 	for _, m := range []int{1, 2} {
 		cfg := Config{MaxInFlight: m, TimeoutTicks: farTimeout, Base: 1<<32 - 3, Offsets: []uint32{0, 1, 3}, Kinds: []string{"mid", "fin", "eoe"}, MaxRecs: 3, PostClose: 1}
 		if prop == "C19" || prop == "C10" {
 			cfg.TimeoutTicks = 2
 			cfg.Ticks = []int{1, 3}
-		}
-		if thorough {
-			cfg.Offsets = []uint32{0, 1, 3, 6}
+			cfg.Offsets = []uint32{0, 2}
 		}
 		n := len(NewInstance(cfg).Ops())
 		for f := 0; f < n; f++ {
+			// second-level sharding keeps the jobs balanced
 			jobs = append(jobs, Job{Mode: "dfs", Cfg: cfg, Depth: depth, First: f})
 		}
 	}
